@@ -259,8 +259,15 @@ Lemma size_str s : pure_sem F_size [Some (JStr s)] = Some (Some (JNum (NPos (N.o
 Proof. reflexivity. Qed.
 
 (* get: "Get an item from an array by index or from a map by key." *)
+Lemma nth_N_spec {A} (l : list A) : forall i, nth_N l i = nth_error l (N.to_nat i).
+Proof.
+  induction l as [|x l IH]; intros i; cbn [nth_N].
+  - destruct (N.to_nat i); reflexivity.
+  - destruct (N.eqb_spec i 0) as [->|Hi]; [reflexivity|].
+    rewrite IH. replace (N.to_nat i) with (S (N.to_nat (i - 1))) by lia. reflexivity.
+Qed.
 Lemma get_arr l i : pure_sem F_get [Some (JArr l); Some (JNum (NPos i))] = Some (nth_error l (N.to_nat i)).
-Proof. reflexivity. Qed.
+Proof. rewrite <- nth_N_spec. reflexivity. Qed.
 Lemma get_obj m k : pure_sem F_get [Some (JObj m); Some (JStr k)] = Some (obj_get k m).
 Proof. reflexivity. Qed.
 (* example `(get ["a", "b", "c"] 100)` : nothing *)
